@@ -4,7 +4,7 @@ from plbase import *
 import plbase
 
 ID = "C01"
-PROPS = "C01"
+PROPS = ["C01", "C01Compose"]
 EXEC = "pl"
 RULE = ("n in 2..6 pipelined requests on one connection, each answered by its own thread; the threads are released in a random "
         "permutation (quick) / every permutation for n <= 4 (thorough) with grace periods of 0.3 / 3 / 20 ms; finishers: respond "
